@@ -1032,29 +1032,37 @@ static unsigned long c08_sum (const void *p, const void *m, unsigned long n) {
 '''
 
 
+def agg_support(i, t):
+    """(C lines, type name) for aggregate number i: its type definitions, mask<i> (), fill<i> (p, k), sum<i> (p)"""
+    out = []
+    e = Emit(i, t)
+    out += e.defs
+    tn = e.top
+    fix = []
+    for idx, (path, lt, bf) in enumerate(scalar_paths(e)):
+        if bf:
+            continue
+        if lt == ('b', 'bool'):
+            fix.append('p->%s = (k + %d) & 1;' % (path, idx))
+        elif lt[0] == 'b' and lt[1] in FP_KINDS:
+            fix.append('p->%s = (%s) (k %% 1000 + %d) + 0.25;' % (path, CNAME[lt[1]], idx))
+            if lt[1] == 'ldouble':
+                fix.append('c08_repat (p, (unsigned char *) &p->%s + 10, 6, k);' % path)
+    out += ['static %s c08_mask%d; static int c08_mask%d_ok;' % (tn, i, i),
+            'static void *mask%d (void) { if (!c08_mask%d_ok) { c08_mask%d_ok = 1; %s } return &c08_mask%d; }'
+            % (i, i, i, ' '.join(mask_code(e, 'c08_mask%d' % i)), i),
+            'static void fill%d (%s *p, unsigned k) { c08_pat (p, sizeof *p, k); %s }' % (i, tn, ' '.join(fix)),
+            'static unsigned long sum%d (const %s *p) { return c08_sum (p, mask%d (), sizeof *p); }' % (i, tn, i)]
+    return out, tn
+
+
 def pass_common(decls):
     """definitions shared by both sides: types, mask_<i>(), fill_<i>(p,k), sum_<i>(p)"""
     out = [PASS_PRELUDE]
     info = []
     for i, t in decls:
-        e = Emit(i, t)
-        out += e.defs
-        tn = e.top
-        fix = []
-        for idx, (path, lt, bf) in enumerate(scalar_paths(e)):
-            if bf:
-                continue
-            if lt == ('b', 'bool'):
-                fix.append('p->%s = (k + %d) & 1;' % (path, idx))
-            elif lt[0] == 'b' and lt[1] in FP_KINDS:
-                fix.append('p->%s = (%s) (k %% 1000 + %d) + 0.25;' % (path, CNAME[lt[1]], idx))
-                if lt[1] == 'ldouble':
-                    fix.append('c08_repat (p, (unsigned char *) &p->%s + 10, 6, k);' % path)
-        out += ['static %s c08_mask%d; static int c08_mask%d_ok;' % (tn, i, i),
-                'static void *mask%d (void) { if (!c08_mask%d_ok) { c08_mask%d_ok = 1; %s } return &c08_mask%d; }'
-                % (i, i, i, ' '.join(mask_code(e, 'c08_mask%d' % i)), i),
-                'static void fill%d (%s *p, unsigned k) { c08_pat (p, sizeof *p, k); %s }' % (i, tn, ' '.join(fix)),
-                'static unsigned long sum%d (const %s *p) { return c08_sum (p, mask%d (), sizeof *p); }' % (i, tn, i)]
+        lines, tn = agg_support(i, t)
+        out += lines
         j = i % len(PRE_ARGS)
         nl, nd = PRE_ARGS[j]
         params = ['long l%d' % k for k in range(nl)] + ['double d%d' % k for k in range(nd)] + [
@@ -1157,3 +1165,264 @@ def pass_tus(decls):
     main += body
     main += ['  return 0;', '}']
     return '\n'.join(lib) + '\n', '\n'.join(main) + '\n'
+
+
+# ------------------------------------------------------------------ whole signatures (round 3, seeded z2)
+#
+# A signature is (res, sig, t): res = 1 when the result travels through the hidden pointer (takes %rdi); sig is a string
+# over scalar letters, helper-aggregate letters, 'A' (the aggregate t under test, may occur more than once) and at most one
+# '.' (what follows is the variadic tail: passed through `...`, read with va_arg).  The scalars before the aggregate are
+# chosen so that each register file (6 general, 8 vector) is exactly full / one short / one over when the aggregate
+# arrives, with long doubles (stack, no register) and memory-class structs sprinkled in between.
+
+# letter: (C type, model type, class, C type after the default argument promotions, model type after them)
+SX_SCALARS = {
+    'c': ('char', 'bchar', 'I', 'int', 'bint'), 'b': ('_Bool', 'bbool', 'I', 'int', 'bint'),
+    'h': ('short', 'bshort', 'I', 'int', 'bint'), 'i': ('int', 'bint', 'I', 'int', 'bint'),
+    'u': ('unsigned', 'buint', 'I', 'unsigned', 'buint'), 'l': ('long', 'blong', 'I', 'long', 'blong'),
+    'q': ('unsigned long long', 'bullong', 'I', 'unsigned long long', 'bullong'), 'p': ('void *', 'p', 'I', 'void *', 'p'),
+    'e': ('enum c08_en', 'eint', 'I', 'int', 'bint'),
+    'f': ('float', 'bfloat', 'S', 'double', 'bdouble'), 'd': ('double', 'bdouble', 'S', 'double', 'bdouble'),
+    'x': ('long double', 'bldouble', 'X', 'long double', 'bldouble')}
+SX_INT, SX_SSE = 'cbhiulqpe', 'fd'
+# helper aggregates: letter -> (declaration, INTEGER registers, SSE registers, 8-byte words when in memory, MEMORY class?)
+SX_HELPERS = {
+    'L': ('s{ n blong }', 1, 0, 1, False), 'D': ('s{ n bdouble }', 0, 1, 1, False),
+    'M': ('s{ n blong ; n bdouble }', 1, 1, 2, False), 'N': ('s{ n bdouble ; n blong }', 1, 1, 2, False),
+    'E': ('s{ n bdouble ; n bdouble }', 0, 2, 2, False), 'G': ('s{ n blong ; n p }', 2, 0, 2, False),
+    'F': ('s{ n bfloat ; n bfloat }', 0, 1, 1, False), 'C': ('s{ n bchar }', 1, 0, 1, False),
+    'B': ('s{ n a3 blong }', 0, 0, 3, True)}
+SX_PRELUDE = 'enum c08_en { c08_en_a = -1, c08_en_b = 7 };\n'
+
+
+def sx_aclass(ms_arg0, size, align):
+    """what the tracker needs to know of the aggregate under test: ms_arg0 = the SysV model's placement with all
+    registers free ('M' or one letter per eightbyte)"""
+    mem = ms_arg0 == 'M' or align >= 16
+    return dict(ni=0 if mem else ms_arg0.upper().count('I') + ms_arg0.count('n'), nf=0 if mem else ms_arg0.count('S'), mem=mem,
+                words=(size + 7) // 8, align16=align >= 16)
+
+
+def sx_track(res, sig, a):
+    """psABI register/stack accounting along a signature (python, for aiming and for the measured distribution only;
+    the models are the Coq ones): list per item of (general used, vector used, stack words) BEFORE it"""
+    ni, nf, words = (1 if res else 0), 0, 0
+    out = []
+    for ch in sig:
+        out.append((ni, nf, words))
+        if ch == '.':
+            continue
+        if ch in SX_SCALARS:
+            k = SX_SCALARS[ch][2]
+            if k == 'I':
+                if ni < 6:
+                    ni += 1
+                else:
+                    words += 1
+            elif k == 'S':
+                if nf < 8:
+                    nf += 1
+                else:
+                    words += 1
+            else:
+                words = (words + 1) // 2 * 2 + 2
+            continue
+        if ch == 'A':
+            ai, af, w, mem, a16 = a['ni'], a['nf'], a['words'], a['mem'], a['align16']
+        else:
+            _, ai, af, w, mem = SX_HELPERS[ch]
+            a16 = False
+        if mem or (ai and ni + ai > 6) or (af and nf + af > 8):
+            if a16:
+                words = (words + 1) // 2 * 2
+                w = (w + 1) // 2 * 2
+            words += w
+        else:
+            ni += ai
+            nf += af
+    out.append((ni, nf, words))
+    return out
+
+
+def sx_signature(rng, a):
+    """a generated (res, sig) for an aggregate with tracker info a, aimed at the register boundaries"""
+    r = rng
+    res = 1 if r.random() < 0.3 else 0
+    ai, af = a['ni'], a['nf']
+    di = r.choice([0, 0, 0, -1, 1, 1, r.randint(-6, 3)])
+    df = r.choice([0, 0, 0, -1, 1, 1, r.randint(-8, 3)])
+    gi = min(9, max(0, 6 - ai + di - res))
+    gf = min(11, max(0, 8 - af + df))
+    ints = [r.choice(SX_INT) for _ in range(gi)]
+    sses = [r.choice(SX_SSE) for _ in range(gf)]
+    pre = ['x'] * r.choice([0, 0, 1, 1, 2, 3])
+    for _ in range(2):
+        if r.random() < 0.3:
+            h = r.choice('LDMNEGFC')
+            _, hi, hf, _, _ = SX_HELPERS[h]
+            if hi <= len(ints) and hf <= len(sses):
+                ints = ints[hi:]
+                sses = sses[hf:]
+                pre.append(h)
+    if r.random() < 0.12:
+        pre.append('B')
+    pre += ints + sses
+    r.shuffle(pre)
+    post = ['L', 'D']
+    r.shuffle(post)
+    if r.random() < 0.3:
+        post.insert(r.randint(0, 2), r.choice(SX_INT + SX_SSE + 'x'))
+    if r.random() < 0.25:
+        post.append(r.choice(['A', 'M', 'E', 'G']))
+    items = pre + ['A'] + post
+    if r.random() < 0.3:
+        # variadic tail: at least one named parameter, the last named one of a type va_start accepts
+        if not pre:
+            items = ['i'] + items
+            k = 1
+        else:
+            k = r.randint(1, len(pre))
+        last = items[k - 1]
+        items[k - 1] = {'c': 'i', 'b': 'i', 'h': 'i', 'e': 'i', 'f': 'd'}.get(last, last)
+        items = items[:k] + ['.'] + items[k:]
+    # MIR block types carry no alignment (known finding passing:align16-odd-stack): a 16-byte aligned aggregate gets
+    # an even number of stack words in front of it - a long double scalar, which changes no register count
+    sig = ''.join(items)
+    if a['align16']:
+        pos = 0
+        while True:
+            pos = sig.find('A', pos)
+            if pos < 0:
+                break
+            if sx_track(res, sig, a)[pos][2] % 2 == 1:
+                sig = sig[:pos] + 'x' + sig[pos:]
+                pos += 1
+            pos += 1
+    return res, sig
+
+
+def sx_text(res, sig, t):
+    return '%d:%s %s' % (res, sig, ty_text(t))
+
+
+def sx_model_line(res, sig, t):
+    """the line for the model driver (command S): declared parameter types, promoted in the variadic tail"""
+    toks, tail = [], False
+    for ch in sig:
+        if ch == '.':
+            tail = True
+            toks.append('.')
+        elif ch in SX_SCALARS:
+            toks.append(SX_SCALARS[ch][4 if tail else 1])
+        elif ch == 'A':
+            toks.append(ty_text(t))
+        else:
+            toks.append(SX_HELPERS[ch][0])
+    return 'S %d %s' % (res, ' '.join(toks))
+
+
+def sx_value(ch, n):
+    return {'c': '%d' % (n + 3), 'b': '1', 'h': '%d' % (1000 + n), 'i': '%d' % (100000 + n), 'u': '%du' % (3000000000 + n),
+            'l': '%dL' % (10000000000 + n), 'q': '0x%xULL' % (0xf000000000000000 + n), 'p': '(void *) %dL' % (0x7000 + n),
+            'e': 'c08_en_b', 'f': '%d.25f' % (200 + n), 'd': '%d.5' % (300 + n), 'x': '%d.75L' % (400 + n)}[ch]
+
+
+class SxCase:
+    """C text of one signature case number c: support definitions, parameter list, argument list, body"""
+
+    def __init__(self, c, res, sig, t):
+        self.c, self.res, self.sig, self.t = c, res, sig, t
+        self.support = []
+        self.tn = {}
+        idx = c * 16
+        for ch in sorted(set(sig)):
+            if ch == 'A' or ch in SX_HELPERS:
+                idx += 1
+                lines, tn = agg_support(900000 + idx, t if ch == 'A' else parse_text(SX_HELPERS[ch][0]))
+                self.support += lines
+                self.tn[ch] = (tn, 900000 + idx)
+        self.variadic = '.' in sig
+        self.rt = 'struct c08_big' if res else 'unsigned long'
+        named, tail, terms, args, ptypes, locs, fills = [], [], [], [], [], [], []
+        in_tail = False
+        n = 0
+        for ch in sig:
+            if ch == '.':
+                in_tail = True
+                continue
+            if ch in SX_SCALARS:
+                ct = SX_SCALARS[ch][3 if in_tail else 0]
+                args.append(sx_value(ch, n))
+                if SX_SCALARS[ch][2] == 'I':
+                    terms.append('(unsigned long) q%d' % n)
+                else:
+                    terms.append('(unsigned long) (q%d * 4)' % n)
+            else:
+                ct, ix = self.tn[ch]
+                args.append('v%d' % n)
+                locs.append('%s v%d;' % (ct, n))
+                fills.append('fill%d (&v%d, k + %d);' % (ix, n, n))
+                terms.append('sum%d (&q%d)' % (ix, n))
+            if in_tail:
+                tail.append('%s q%d = va_arg (ap, %s);' % (ct, n, ct))
+            else:
+                named.append('%s q%d' % (ct, n))
+                ptypes.append(ct)
+                self.last_named = 'q%d' % n
+            n += 1
+        self.params = ', '.join(named + (['...'] if self.variadic else []))
+        self.ptypes = ', '.join(ptypes + (['...'] if self.variadic else []))
+        self.args = ', '.join(args)
+        self.locals = ' '.join(locs)
+        self.fills = ' '.join(fills)
+        hsh = ' '.join('h = h * 31 + %s;' % x for x in terms)
+        va = ('va_list ap; va_start (ap, %s); %s va_end (ap); ' % (self.last_named, ' '.join(tail))) if self.variadic else ''
+        ret = 'struct c08_big r = { h, { 1, 2, 3 } }; return r;' if res else 'return h;'
+        self.body = '{ unsigned long h = 17; %s%s %s }' % (va, hsh, ret)
+        self.hsel = '.h' if res else ''
+
+
+def sx_tus(cases):
+    """cases: list of (res, sig, t).  (gcc library source, c2m main source, c2m signature TU).  Lines of the c2m program:
+    'X <c> s ok|BAD' (c2m caller -> gcc callee) and 'X <c> S ok|BAD' (gcc caller -> c2m callee)"""
+    lib, main, sigtu, body = [PASS_PRELUDE, SX_PRELUDE], ['#include <stdio.h>', PASS_PRELUDE, SX_PRELUDE], [PASS_PRELUDE, SX_PRELUDE], []
+    for c, (res, sig, t) in enumerate(cases):
+        x = SxCase(c, res, sig, t)
+        for out in (lib, main, sigtu):
+            out += x.support
+        lib.append('%s g_sx%d (%s) %s' % (x.rt, c, x.params, x.body))
+        lib.append('unsigned long g_call_sx%d (%s (*cb) (%s), unsigned k) { %s %s return cb (%s)%s; }'
+                   % (c, x.rt, x.ptypes, x.locals, x.fills, x.args, x.hsel))
+        main.append('extern %s g_sx%d (%s);' % (x.rt, c, x.params))
+        main.append('extern unsigned long g_call_sx%d (%s (*cb) (%s), unsigned k);' % (c, x.rt, x.ptypes))
+        main.append('%s c_sx%d (%s) %s' % (x.rt, c, x.params, x.body))
+        main.append('static void sx%d (void) { unsigned k = %d; unsigned long e, r; %s %s' % (c, 5 + c, x.locals, x.fills))
+        main.append('  e = c_sx%d (%s)%s; r = g_sx%d (%s)%s; printf ("X %d s %%s\\n", r == e ? "ok" : "BAD");'
+                    % (c, x.args, x.hsel, c, x.args, x.hsel, c))
+        main.append('  r = g_call_sx%d (c_sx%d, k); printf ("X %d S %%s\\n", r == e ? "ok" : "BAD"); }' % (c, c, c))
+        body.append('  sx%d ();' % c)
+        # c2m -S: the prototype (named parameters) and a call site (every argument)
+        sigtu.append('%s sx%d (%s) %s' % (x.rt, c, x.params, x.body))
+        sigtu.append('unsigned long csx%d (unsigned k) { %s %s return sx%d (%s)%s; }' % (c, x.locals, x.fills, c, x.args, x.hsel))
+    main.append('int main (void) {')
+    main += body
+    main += ['  return 0;', '}']
+    return '\n'.join(lib) + '\n', '\n'.join(main) + '\n', '\n'.join(sigtu) + '\n'
+
+
+def sx_mir_blocks(mir_text, ncases):
+    """per case: (block types of the aggregate parameters in the prototype of sx<c>, block types of the aggregate
+    arguments of the call of sx<c> in csx<c>) as lists of 'blk<k>', from c2m -S"""
+    import re
+    fns = mir_functions(mir_text)
+    out = []
+    for c in range(ncases):
+        proto = call = None
+        if 'sx%d' % c in fns:
+            proto = re.findall(r'\b(blk\d):\d+\(', fns['sx%d' % c][0])
+        if 'csx%d' % c in fns:
+            for x in fns['csx%d' % c][1]:
+                if re.match(r'call\s+\w+\s*,\s*sx%d\b' % c, x):
+                    call = re.findall(r'\b(blk\d):\d+\(', x)
+        out.append((proto, call))
+    return out
